@@ -743,7 +743,15 @@ func concPart(out *shardOut, scs []scen.Conc, shard, nshards int, deadline time.
 				nviol++
 				return nviol < 20
 			}
-			for _, f := range checkConc(sc, &run) {
+			fs := checkConc(sc, &run)
+			if len(fs) > 0 && nviol < 8 {
+				// a violation is only believed if the same schedule gives the same observations again
+				if err := vrt.Confirm(cfg.Config, r, body, 3); err != nil {
+					fmt.Fprintln(os.Stderr, "ENGINE ERROR:", sc.Name, err)
+					os.Exit(2)
+				}
+			}
+			for _, f := range fs {
 				out.violate(10000+len(r.Choices), f.Sig, fmt.Sprintf("scenario %s schedule %v: %s; log %v", sc, r.ChoiceSeq(), f.Detail, r.Log),
 					map[string]interface{}{"part": "conc", "scenario": sc.Name, "schedule": r.ChoiceSeq(), "log": r.Log})
 				nviol++
@@ -800,12 +808,17 @@ func goEnv() []string {
 func racePass(tier string) raceResult {
 	start := time.Now()
 	var rr raceResult
-	dir := filepath.Join(lib.Root, ".build", "c13")
+	dir := buildDir()
 	os.MkdirAll(dir, 0o755)
 	bin := filepath.Join(dir, "race")
 	args := []string{"build", "-race"}
 	if ov := os.Getenv("C13_RACE_OVERLAY"); ov != "" {
 		args = append(args, "-overlay", ov)
+	}
+	if alt := os.Getenv("VERIF_ALT_REPO"); alt != "" {
+		// ./check was pointed at a scratch copy of martian (VERIF_REPO): it left a go.mod replacing martian with
+		// that copy next to the check binary; the race pass must look at the same tree.
+		args = append(args, "-modfile="+filepath.Join(dir, "alt.mod"))
 	}
 	args = append(args, "-o", bin, "./checks/c13race")
 	cmd := exec.Command("go", args...)
@@ -837,6 +850,14 @@ func racePass(tier string) raceResult {
 	rr.Reports = parseRace(stderr.String())
 	rr.Seconds = time.Since(start).Seconds()
 	return rr
+}
+
+// buildDir is the directory ./check built this binary into (.build/c13, or .build/c13-alt-* for a scratch tree).
+func buildDir() string {
+	if exe, err := os.Executable(); err == nil && strings.Contains(exe, string(filepath.Separator)+".build"+string(filepath.Separator)) {
+		return filepath.Dir(exe)
+	}
+	return filepath.Join(lib.Root, ".build", "c13")
 }
 
 func tail(s string, n int) string {
@@ -990,7 +1011,7 @@ func main() {
 		}
 		raceCh <- racePass(tier)
 	}()
-	files, errs, outs := lib.RunShards(nShards, lib.Root+"/.build/c13/shards")
+	files, errs, outs := lib.RunShards(nShards, filepath.Join(buildDir(), "shards"))
 	var all []viol
 	outcomes := map[string]int{}
 	perSig := map[string]int{}
